@@ -1,4 +1,6 @@
 //! vrt: run-time checks over the compiled type zoo.
+mod c03;
+mod c06;
 mod common;
 mod uper;
 
@@ -9,6 +11,8 @@ fn main() {
     let code = match ctx.prop.as_str() {
         "C01" => uper::run_c01(ctx),
         "C02" => uper::run_c02(ctx),
+        "C03" => c03::run(ctx),
+        "C06" => c06::run(ctx),
         other => {
             eprintln!("vrt does not serve {other}");
             2
